@@ -173,6 +173,135 @@ structure Rel (s : Srv) (mn : Mon) : Prop where
   cons : s.avail.length + s.alloc.length = mn.total
 
 
+theorem inj_of_nodup_map' {α β : Type} (f : α → β) : ∀ {l : List α}, (l.map f).Nodup →
+    ∀ {a b : α}, a ∈ l → b ∈ l → f a = f b → a = b
+  | [], _, _, _, ha, _, _ => by simp at ha
+  | c :: rest, h, a, b, ha, hb, e => by
+    simp only [List.map_cons, List.nodup_cons, List.mem_map, not_exists, not_and] at h
+    rcases List.mem_cons.mp ha with rfl | ha' <;> rcases List.mem_cons.mp hb with rfl | hb'
+    · rfl
+    · exact absurd e.symm (h.1 b hb')
+    · exact absurd e (h.1 a ha')
+    · exact inj_of_nodup_map' f h.2 ha' hb' e
+
+/-- the pool-view clauses never speak on the model: the address a session shows is the pool's entry for it, the
+    recorded addresses are pairwise distinct, none of them is free -/
+theorem v5_nil {s : Srv} (hW : W s) (outs : List Out) : v5 (obsOf s outs) = [] := by
+  have hheld : ∀ p, p ∈ (obsOf s outs).held ↔
+      ∃ y, y ∈ sortedSess s ∧ AMap.lookup s.alloc y.serial = some p.2 ∧ y.id = p.1 := by
+    intro p
+    show p ∈ (sortedSess s).filterMap _ ↔ _
+    rw [List.mem_filterMap]
+    constructor
+    · rintro ⟨y, hy, h⟩
+      cases hl : AMap.lookup s.alloc y.serial with
+      | none => rw [hl] at h; simp at h
+      | some a =>
+        rw [hl] at h
+        simp only [Option.map_some, Option.some.injEq] at h
+        subst h
+        exact ⟨y, hy, hl, rfl⟩
+    · rintro ⟨y, hy, hl, hid⟩
+      refine ⟨y, hy, ?_⟩
+      rw [hl]
+      simp only [Option.map_some, Option.some.injEq]
+      rw [hid]
+  have hvals : (vals s.alloc).Nodup := (List.nodup_append.mp hW.pnd).2.1
+  -- one address, one session
+  have huniq : ∀ y y' a, y ∈ sortedSess s → y' ∈ sortedSess s → AMap.lookup s.alloc y.serial = some a →
+      AMap.lookup s.alloc y'.serial = some a → y = y' := by
+    intro y y' a hy hy' h h'
+    have l1 := (mem_sorted_iff hW y).mp hy
+    have l2 := (mem_sorted_iff hW y').mp hy'
+    have hk : y.serial = y'.serial :=
+      congrArg Prod.fst (inj_of_nodup_map' (fun (p : Nat × Nat) => p.2) hvals (mem_of_lookup h) (mem_of_lookup h') rfl)
+    have hid := hW.inj y.id y'.id y y' l1 l2 hk
+    rw [hid] at l1
+    rw [l1] at l2
+    exact Option.some.inj l2
+  have h1 : v5a (obsOf s outs) = [] := by
+    unfold v5a
+    rw [List.filterMap_eq_nil_iff]
+    intro x hx
+    have hx' : x ∈ (sortedSess s).map toSeen := hx
+    obtain ⟨y, hy, rfl⟩ := List.mem_map.mp hx'
+    have hl := (mem_sorted_iff hW y).mp hy
+    have hip := hW.ipa y.id y hl
+    have hok : poolAgrees (obsOf s outs) (toSeen y) = true := by
+      show (match y.ip with
+        | some a => (obsOf s outs).held.contains (y.id, a)
+        | none => !((obsOf s outs).held.any (·.1 == y.id))) = true
+      cases hyip : y.ip with
+      | some a =>
+        simp only
+        rw [List.contains_iff_mem]
+        exact (hheld (y.id, a)).mpr ⟨y, hy, by rw [← hip, hyip], rfl⟩
+      | none =>
+        simp only [Bool.not_eq_true']
+        rw [List.any_eq_false]
+        intro p hp
+        obtain ⟨y', hy', hl', hid'⟩ := (hheld p).mp hp
+        intro he
+        have he' : p.1 = y.id := by simpa using he
+        -- y' has the same id as y, so it is y; but y has no pool entry
+        have l2 := (mem_sorted_iff hW y').mp hy'
+        rw [hid', he'] at l2
+        rw [hl] at l2
+        have : y = y' := Option.some.inj l2
+        subst this
+        rw [hyip] at hip
+        rw [← hip] at hl'
+        cases hl'
+    simp only [hok, if_true]
+  have h2 : v5b (obsOf s outs) = [] := by
+    unfold v5b
+    have hnd : ((obsOf s outs).held.map (·.2)).Nodup := by
+      show (((sortedSess s).filterMap fun x => (AMap.lookup s.alloc x.serial).map fun a => (x.id, a)).map (·.2)).Nodup
+      rw [List.map_filterMap]
+      have hsn : (sortedSess s).Nodup := by
+        have hv : (vals s.sessions).Nodup := by
+          have hk : ((vals s.sessions).map (·.id)).Nodup := by
+            have : (vals s.sessions).map (·.id) = keys s.sessions := by
+              unfold vals keys
+              rw [List.map_map]
+              apply List.map_congr_left
+              intro p hp
+              obtain ⟨k, x⟩ := p
+              exact hW.idk k x (lookup_of_mem hW.nd hp)
+            rw [this]; exact hW.nd
+          exact List.Pairwise.of_map (·.id) (fun a b h e => h (congrArg _ e)) hk
+        exact (sortedSess_perm s).symm.nodup hv
+      refine List.Pairwise.filterMap _ ?_ (List.Pairwise.and_mem.mp hsn)
+      intro y y' ⟨hy, hy', hne⟩ a ha a' ha'
+      cases hl : AMap.lookup s.alloc y.serial with
+      | none => rw [hl] at ha; simp at ha
+      | some b =>
+        cases hl' : AMap.lookup s.alloc y'.serial with
+        | none => rw [hl'] at ha'; simp at ha'
+        | some b' =>
+          rw [hl] at ha; rw [hl'] at ha'
+          simp only [Option.map_some, Option.some.injEq] at ha ha'
+          subst ha; subst ha'
+          intro e
+          exact hne (huniq y y' b hy hy' hl (by rw [hl', e]))
+    rw [if_pos hnd]
+  have h3 : v5c (obsOf s outs) = [] := by
+    unfold v5c
+    rw [List.filterMap_eq_nil_iff]
+    intro p hp
+    obtain ⟨y, _, hl, _⟩ := (hheld p).mp hp
+    have hm : p.2 ∈ vals s.alloc := by
+      simp only [vals, List.mem_map]
+      exact ⟨_, mem_of_lookup hl, rfl⟩
+    have hnf : ¬ p.2 ∈ s.avail := fun hmem => (List.nodup_append.mp hW.pnd).2.2 p.2 hmem p.2 hm rfl
+    have : (obsOf s outs).freeL.contains p.2 = false := by
+      rw [Bool.eq_false_iff]; intro hc; rw [List.contains_iff_mem] at hc; exact hnf hc
+    simp only [this]
+    rfl
+  unfold v5
+  rw [h1, h2, h3]
+  rfl
+
 /-- a verdict is acceptable when it is the recorded idle-sweep finding -/
 def Quiet (vs : List Verdict) : Prop := ∀ v ∈ vs, v.2.1 = "KF-pppoe-idle-leak"
 
@@ -248,8 +377,8 @@ theorem finish {s' : Srv} {mn : Mon} {i : In} {outs : List Out}
     intro v hv
     show v.2.1 = _
     have hv' : v ∈ v1 (auth1 mn i (obsOf s' outs)) (obsOf s' outs) ++ v2 (auth1 mn i (obsOf s' outs)) (obsOf s' outs)
-        ++ v3 mn i (obsOf s' outs) ++ v4 mn i (obsOf s' outs) := hv
-    rw [h1, h2, hv3] at hv'
+        ++ v3 mn i (obsOf s' outs) ++ v4 mn i (obsOf s' outs) ++ v5 (obsOf s' outs) := hv
+    rw [h1, h2, hv3, v5_nil hW', List.append_nil] at hv'
     simp only [List.nil_append, v4, hh] at hv'
     have e1 : (obsOf s' outs).alloc = s'.alloc.length := rfl
     have e2 : (obsOf s' outs).free = s'.avail.length := rfl
